@@ -838,6 +838,8 @@ func sameCanon(a, b string) bool {
 	for i := range ma {
 		x := col{r: f(ma[i][1]), g: f(ma[i][2]), b: f(ma[i][3]), a: f(ma[i][4])}
 		y := col{r: f(mb[i][1]), g: f(mb[i][2]), b: f(mb[i][3]), a: f(mb[i][4])}
+		// C(-1,-1,-1,-1) is a colour outside the sRGB gamut (canonColor): gamut mapping is not modelled
+		x.any, y.any = x.r < 0, y.r < 0
 		if !sameColor(x, y) {
 			return false
 		}
